@@ -85,10 +85,15 @@ ARCHIVE_FORMATS = ("zip", "tar", "7z")
 FORMATS = ADM_FORMATS + SHEET_FORMATS + HTML_FORMATS + MAIL_FORMATS + ARCHIVE_FORMATS
 
 # body features in canonical order; what a feature means per family is described in build_*
-BODY_ALL = ["text", "uni", "sur", "surl", "h", "tbl", "rag", "img", "imgx", "imge", "ul", "a", "types", "att", "u2", "notes", "hf", "hexesc"]
+BODY_ALL = ["text", "uni", "sur", "surl", "h", "hu", "tbl", "tblu", "rag", "img", "imgx", "imge", "ul", "ulu", "a", "au", "types", "att", "u2",
+            "notes", "notesu", "hf", "hfu", "hexesc"]
+# position modifiers: the text of heading / table cell / list item / link / notes / header+footer carries the non-BMP / RTL / markup
+# characters of "uni" (a paragraph is only one of the places where text lives; each place has its own decoding path in an
+# extractor).  A modifier brings its own element when the plain feature is absent, and replaces it when both are given.
+UNI_POS = {"hu": "h", "tblu": "tbl", "ulu": "ul", "au": "a", "notesu": "notes", "hfu": "hf"}
 VARIANTS = {"rtf": ["hexesc"]}      # writer variants that change how text (also property values) is encoded
 IMG_MODES = ("imgx", "imge")
-RICH_EXTRA = ("sur", "surl", "imgx", "imge", "hexesc")   # not part of the "rich" document (they damage it); each is added to it in a variant of its own
+RICH_EXTRA = ("sur", "surl", "imgx", "imge", "hexesc") + tuple(UNI_POS)   # not part of the "rich" document (they damage or modify it); each is added to it in a variant of its own
 _PUA = "\ue000"                     # placeholder that is byte-patched into a lone high surrogate (UTF-16LE 3D D8) for "sur"
 
 
@@ -167,9 +172,23 @@ def build_adm(fmt, body, meta, tk):
     if mode and fmt not in ("docx", "pptx", "odt", "odp", "odg"):
         mode = None
     sur = None
+    uni_text = UNI_TEXT_CP1252 if fmt == "pdf" else UNI_TEXT
+    upos = {UNI_POS[f] for f in body if f in UNI_POS}
+    body = [f for f in body if not (f in upos and f in UNI_POS.values())]      # the modifier replaces the plain feature
+    body = [UNI_POS.get(f, f) for f in body]
+
+    def tok(cls, feature):
+        """a token of class cls; inside a feature whose position modifier is set: token + uni characters + token"""
+        return tk.new(cls) + uni_text + tk.new(cls) if feature in upos else tk.new(cls)
+
+    def mark(feature):
+        used.append(feature)
+        if feature in upos:
+            used.append(feature + "u")
+
     for f in body:
         if f == "h" and "h" in caps:
-            blocks.insert(0, ["h", 1, [["t", tk.new("H")]]]); used.append(f)
+            blocks.insert(0, ["h", 1, [["t", tok("H", "h")]]]); mark(f)
         elif f in ("sur", "surl") and fmt in ("rtf", "ppt"):
             # a lone high (sur) / lone LOW (surl: U+DE00, the second half of a pair on its own) surrogate
             a, b = tk.new("B"), tk.new("B")
@@ -187,19 +206,21 @@ def build_adm(fmt, body, meta, tk):
             blocks.append(_p(t)); used.append(f)
         elif f == "tbl" and "tbl" in caps:
             c = [tk.new("C") for _ in range(6)]
-            blocks.append(["tbl", [[[_p(c[0])], [_p(c[1])], [_p(c[2])]], [[_p(c[3])], [_p(c[4])], [_p(c[5])]]]]); used.append(f)
+            if "tbl" in upos:
+                c[0], c[4] = tok("C", "tbl"), tok("C", "tbl")          # first cell of the first row, middle cell of the second
+            blocks.append(["tbl", [[[_p(c[0])], [_p(c[1])], [_p(c[2])]], [[_p(c[3])], [_p(c[4])], [_p(c[5])]]]]); mark(f)
         elif f == "img" and "img" in caps:
             img("k", 1); blocks.append(["img", "k"]); used.append(f)
             if mode:
                 used.append(mode)
         elif f == "ul" and "ul" in caps:
-            blocks.append(["ul", [[_p(tk.new("L"))], [_p(tk.new("L"))]]]); used.append(f)
+            blocks.append(["ul", [[_p(tok("L", "ul"))], [_p(tok("L", "ul"))]]]); mark(f)
         elif f == "a" and "a" in caps:
-            blocks.append(["p", [["a", "http://verif.invalid/x?a=1&b=2", [["t", tk.new("K")]]]]]); used.append(f)
+            blocks.append(["p", [["a", "http://verif.invalid/x?a=1&b=2", [["t", tok("K", "a")]]]]]); mark(f)
         elif f == "notes" and "extra:notes" in caps:
-            extras["notes"] = [tk.new("P")]; used.append(f)
+            extras["notes"] = [tok("P", "notes")]; mark(f)
         elif f == "hf" and "meta:header" in caps:
-            m["header"] = tk.new("R"); m["footer"] = tk.new("R"); used.append(f)
+            m["header"] = tok("R", "hf"); m["footer"] = tok("R", "hf"); mark(f)
     if fmt in ("odf", "json") and not blocks:
         blocks.append(_p(tk.new("B")))
     if fmt == "odf":
@@ -265,8 +286,12 @@ def build_sheet(fmt, body, meta, tk):
         used.append("img" if "img" in body else mode)
         if mode and "img" in body:
             used.append(mode)
-    if "hf" in body and fmt in ("ods", "xls"):
-        m["header"] = tk.new("R"); m["footer"] = tk.new("R"); used.append("hf")
+    if ("hf" in body or "hfu" in body) and fmt in ("ods", "xls"):
+        u = UNI_TEXT if "hfu" in body else ""
+        m["header"] = tk.new("R") + (u + tk.new("R") if u else ""); m["footer"] = tk.new("R") + (u + tk.new("R") if u else "")
+        used.append("hf")
+        if u:
+            used.append("hfu")
     doc = ["doc", m, sheets]
     if fmt == "xlsx":
         from verif.gen import ooxml
@@ -298,17 +323,31 @@ def _xa(s: str) -> str:
 
 def html_body(body, tk, used, img_src, modes_ok=False):
     out = []
+    upos = {UNI_POS[f] for f in body if f in UNI_POS and UNI_POS[f] in ("h", "tbl", "ul", "a")}
+    body = [f for f in body if not (f in upos and f in UNI_POS.values())]
+    body = [UNI_POS[f] if f in UNI_POS and UNI_POS[f] in upos else f for f in body]
+
+    def tok(cls, feature):
+        return tk.new(cls) + _x(UNI_TEXT) + tk.new(cls) if feature in upos else tk.new(cls)
+
+    def mark(feature):
+        used.append(feature)
+        if feature in upos:
+            used.append(feature + "u")
+
     for f in body:
         if f == "h":
-            out.insert(0, "<h1>%s</h1>" % tk.new("H")); used.append(f)
+            out.insert(0, "<h1>%s</h1>" % tok("H", "h")); mark(f)
         elif f == "text":
             out.append("<p>%s %s</p>" % (tk.new("B"), tk.new("B"))); used.append(f)
         elif f == "uni":
             out.append("<p>%s%s%s</p>" % (tk.new("B"), _x(UNI_TEXT), tk.new("B"))); used.append(f)
         elif f == "tbl":
             c = [tk.new("C") for _ in range(6)]
+            if "tbl" in upos:
+                c[0], c[4] = tok("C", "tbl"), tok("C", "tbl")
             out.append("<table><tr><td>%s</td><td>%s</td><td>%s</td></tr><tr><td>%s</td><td>%s</td><td>%s</td></tr></table>" % tuple(c))
-            used.append(f)
+            mark(f)
         elif f == "rag":
             c = [tk.new("C") for _ in range(6)]
             out.append('<table><tr><td>%s</td><td>%s</td><td>%s</td></tr><tr><td>%s</td></tr><tr><td colspan="2">%s</td><td>%s</td></tr>'
@@ -316,9 +355,9 @@ def html_body(body, tk, used, img_src, modes_ok=False):
         elif f == "img" or (modes_ok and f in IMG_MODES and "img" not in body and f == next(x for x in body if x in IMG_MODES)):
             out.append('<p><img src="%s" alt="%s"/></p>' % (img_src, tk.new("Z"))); used.append(f)
         elif f == "ul":
-            out.append("<ul><li>%s</li><li>%s</li></ul>" % (tk.new("L"), tk.new("L"))); used.append(f)
+            out.append("<ul><li>%s</li><li>%s</li></ul>" % (tok("L", "ul"), tok("L", "ul"))); mark(f)
         elif f == "a":
-            out.append('<p><a href="http://verif.invalid/x?a=1&amp;b=2">%s</a></p>' % tk.new("K")); used.append(f)
+            out.append('<p><a href="http://verif.invalid/x?a=1&amp;b=2">%s</a></p>' % tok("K", "a")); mark(f)
     return "".join(out)
 
 
